@@ -193,6 +193,14 @@ Plan cppwrap_generate(uint64_t base, const std::string &prop, uint64_t index, in
     k.p_container = 20 + (int)rd.below(40);
     p.root = 0;
     Node t = gen_tree(rd, k, false);
+    if (rd.chance(1, tier ? 40 : 150)) {
+        // many fields in one object: counts (and quantities derived from them) beyond narrow counters
+        uint64_t cnt; unsigned w = (unsigned)rd.below(4);
+        if (w == 0) cnt = 250 + rd.below(12); else if (w == 1) cnt = 1000 + rd.below(40); else if (w == 2) cnt = 4050 + rd.below(70); else cnt = 20 + rd.below(3000);
+        t.kids.clear();
+        for (uint64_t i = 0; i < cnt; i++) { Node c; c.t = V_INT; c.i = (int64_t)i; c.name = Bytes{(uint8_t)('a' + i / 17576 % 26), (uint8_t)('a' + i / 676 % 26), (uint8_t)('a' + i / 26 % 26), (uint8_t)('a' + i % 26)}; t.kids.push_back(c); }
+        p.faults.push_back(fmt("shape:fields=%llu", (unsigned long long)cnt));
+    }
     if (rd.chance(1, 25)) {
         // arrays do not count against the wrapper's object-depth limit of 10: up to 255 of them may nest per object level
         static const int N[] = {12, 40, 79, 80, 81, 120, 200, 254, 255};
